@@ -10,6 +10,7 @@
 package main
 
 import (
+	"sync/atomic"
 	"encoding/json"
 	"flag"
 	"fmt"
@@ -295,6 +296,9 @@ func cmdCheck(args []string) int {
 				}
 				fmu.Unlock()
 				oc := rn.runPlan(j.v, *prop, *seed, j.idx, *tier, nil)
+				if oc.Skipped {
+					continue
+				}
 				st.add(oc)
 				fmu.Lock()
 				if oc.Infra != "" {
@@ -324,6 +328,7 @@ func cmdCheck(args []string) int {
 				for _, v := range oc.Viols {
 					if v.Oracle == "hang" && sigSeen["hang"] >= 2 {
 						stop = true // every further hanging plan costs two watchdog periods
+						atomic.StoreInt32(&rn.abort, 1)
 					}
 				}
 				fmu.Unlock()
@@ -472,4 +477,3 @@ func cmdCheck(args []string) int {
 	fmt.Fprintf(os.Stderr, "[check] %s %s: %d plans, %d cases, %d violations, %d known findings, %.1fs\n", *prop, *tier, st.plans, st.cases, violations, len(knownHit), time.Since(t0).Seconds())
 	return exit
 }
-
